@@ -24,7 +24,7 @@ from pbt.props import c04
 RULE = ("requests of 1-4 operations over a default graph and up to two named graphs of 0-6 triples each (plus a graph name that is absent); WHERE "
         "patterns derived from the data (BGP, GRAPH with constant or variable name, OPTIONAL, UNION, FILTER, BIND(?o+1) over a numeric chain so that "
         "one solution's insertion is another's deletion); templates with GRAPH blocks (constant / variable name), blank nodes, variables that are "
-        "unbound in some solutions or bound to literals in subject / predicate position; CLEAR/DROP DEFAULT|NAMED|ALL|GRAPH; ADD/MOVE/COPY incl. "
+        "unbound in some solutions or bound to literals in subject / predicate position; CLEAR/DROP DEFAULT|NAMED|ALL|GRAPH; ADD/MOVE/COPY (a Dataset's default graph also by its own name) incl. "
         "source = target and absent graphs; applied through Graph, ConjunctiveGraph and Dataset(default_union on/off) with "
         "SPARQL_DEFAULT_GRAPH_UNION on/off. Non-trivial = the request changes the dataset and (touches >=2 graphs, or deleted and inserted "
         "instantiations overlap, or a template triple is skipped); distinct by SHA-1 of the case JSON.")
@@ -88,6 +88,10 @@ def quads_text(triples, blocks, idx=0):
     for gterm, tps in blocks:
         s += f" GRAPH {tt(gterm, idx)} {{ {tps_text(tps, idx)} }}"
     return s.strip()
+
+
+# the default graph of a Dataset has a name of its own in RDFLib; a request may use it like any graph name
+DEFAULT_BY_NAME = "urn:x-rdflib:default"
 
 
 def gref(x):
@@ -198,7 +202,7 @@ def instantiate_quads(tmpl, mu, fresh, default_name):
 
 
 def name_of(x):
-    return None if x == "DEFAULT" else ("u", x)
+    return None if x in ("DEFAULT", DEFAULT_BY_NAME) else ("u", x)
 
 
 def apply_op(state, op, idx, union, info):
@@ -274,8 +278,8 @@ def apply_op(state, op, idx, union, info):
                 state.named[n] = set()
                 info["graphs"].add(n)
         if tgt not in ("DEFAULT", "NAMED", "ALL"):
-            state.graph(("u", tgt)).clear()
-            info["graphs"].add(("u", tgt))
+            state.graph(name_of(tgt)).clear()
+            info["graphs"].add(name_of(tgt))
         return
     if k in ("add", "move", "copy"):
         src, dst = name_of(op[2]), name_of(op[3])
@@ -457,7 +461,7 @@ def where_patterns(draw, data, dataset):
 
 
 @st.composite
-def operations(draw, data, dataset):
+def operations(draw, data, dataset, by_name=False):
     kinds = ["insertdata", "deletedata", "deletewhere", "modify", "modify", "modify", "clear"]
     if dataset:
         kinds += ["drop", "add", "move", "copy", "clear"]
@@ -509,9 +513,11 @@ def operations(draw, data, dataset):
             named = draw(st.lists(gname, min_size=0 if using else 1, max_size=2, unique=True))
         return [k, with_, dele, ins, using, named, pat]
     if k in ("clear", "drop"):
-        return [k, draw(st.booleans()), draw(st.sampled_from(["DEFAULT", "NAMED", "ALL"] + GNAMES)) if dataset else "DEFAULT"]
-    src = draw(st.sampled_from(["DEFAULT"] + GNAMES))
-    dst = draw(st.sampled_from(["DEFAULT"] + GNAMES))
+        return [k, draw(st.booleans()), draw(st.sampled_from(["DEFAULT", "NAMED", "ALL"] + GNAMES + ([DEFAULT_BY_NAME] if by_name else []))) if dataset else "DEFAULT"]
+    # (the default graph now and then by its own name: the same graph as DEFAULT)
+    names = ["DEFAULT"] + GNAMES + (["DEFAULT", DEFAULT_BY_NAME] if by_name else [])
+    src = draw(st.sampled_from(names))
+    dst = draw(st.sampled_from(names))
     return [k, draw(st.booleans()), src, dst]
 
 
@@ -528,7 +534,7 @@ def cases(draw, tier):
         chain = [[s, p, gs.LITS[0]], [s, p, gs.LITS[1]], [s, p, gs.LITS[8]]]
         where = draw(st.sampled_from(["default", "g1"] if dataset else ["default"]))
         data[where] = [t for t in data[where] if t not in chain][:3] + chain
-    ops = draw(st.lists(operations(data, dataset), min_size=1, max_size=4 if tier == "thorough" else 3))
+    ops = draw(st.lists(operations(data, dataset, by_name=cfg in ("ds", "ds-union")), min_size=1, max_size=4 if tier == "thorough" else 3))
     return {"config": cfg, "flag": draw(st.booleans()), "data": data, "ops": ops}
 
 
